@@ -118,6 +118,14 @@ func enumerate(transports []string, thorough bool) []kase {
 					}
 				}
 			}
+			// a sender that reuses one message object for all its sends, with a lagging receiver
+			if !isHuge(s) {
+				for _, sp := range []rpcSpec{{"client-stream", 3, 1}, {"server-stream", 1, 3}, {"bidi", 3, 3}} {
+					for _, tr := range transports {
+						out = append(out, kase{Engine: "E2", Transport: tr, Shape: s.Name, SendRep: rp.send, RecvRep: rp.recv, RPC: sp, Reuse: true})
+					}
+				}
+			}
 			// a garbage collection (with finalizers) while the client is in its last call on the stream
 			if (s.Name == "payload-1" || s.Name == "msg-full") && rp.send == "gen" && rp.recv == "gen" {
 				for _, kind := range kinds {
@@ -149,55 +157,8 @@ func enumerate(transports []string, thorough bool) []kase {
 			}
 		}
 	}
-	rank := func(k kase) []int {
-		pair, n := 0, k.RPC.N+k.RPC.M
-		if k.RPC2 != nil {
-			pair, n = 1, n+k.RPC2.N+k.RPC2.M
-		}
-		herr := 0
-		if k.HandlerErr {
-			herr = 1
-		}
-		dyn := 0
-		if k.SendRep == "dyn" {
-			dyn++
-		}
-		if k.RecvRep == "dyn" {
-			dyn++
-		}
-		if k.GC {
-			pair = 2
-		}
-		return []int{pair, herr, n, shapeByName[k.Shape].Index, dyn, kindIdx(k.RPC.Kind)}
-	}
-	sort.SliceStable(out, func(i, j int) bool {
-		a, b := rank(out[i]), rank(out[j])
-		for x := range a {
-			if a[x] != b[x] {
-				return a[x] < b[x]
-			}
-		}
-		return false
-	})
+	sort.SliceStable(out, func(i, j int) bool { return lessCase(out[i], out[j]) })
 	return out
-}
-
-func fingerprint(k kase, f finding) string {
-	kind := k.RPC.Kind
-	if k.RPC2 != nil {
-		kind = "concurrent:" + k.RPC.Kind + "+" + k.RPC2.Kind
-	}
-	if k.GC {
-		// the content plays no part in these cases
-		return fmt.Sprintf("C01|%s|%s+gc|%s|%s", k.Transport, kind, f.Dir, f.Clause)
-	}
-	return fmt.Sprintf("C01|%s|%s|%s|%s|%s|%s>%s", k.Transport, kind, f.Dir, f.Clause, shapeByName[k.Shape].Group, k.SendRep, k.RecvRep)
-}
-
-type aggregate struct {
-	first kase
-	what  string
-	n     int
 }
 
 func main() {
@@ -219,7 +180,7 @@ func main() {
 		}
 		fmt.Printf("replay: %s\n  observed: %s\n", k.key(), o.Observed)
 		for _, f := range o.Findings {
-			fmt.Printf("  %s: %s\n", fingerprint(k, f), f.What)
+			fmt.Printf("  %s|%s: %s\n", classKey(k, f), shapeByName[k.Shape].Group, f.What)
 		}
 		if len(o.Findings) > 0 {
 			fmt.Printf("VIOLATION property=C01 replay=%s\n", p)
@@ -247,8 +208,7 @@ func main() {
 	perClass := map[string]int{}
 	var samples []interface{}
 	sampled := map[string]bool{}
-	agg := map[string]*aggregate{}
-	var order []string
+	var hits []hit
 	for _, k := range enumerate([]string{"inproc", "http"}, thorough) {
 		evals++
 		o := guarded(k)
@@ -273,23 +233,15 @@ func main() {
 			samples = append(samples, map[string]interface{}{"case": k, "observed": o.Observed})
 		}
 		for _, f := range o.Findings {
-			fp := fingerprint(k, f)
-			a := agg[fp]
-			if a == nil {
-				a = &aggregate{first: k, what: f.What}
-				agg[fp] = a
-				order = append(order, fp)
-			}
-			a.n++
+			hits = append(hits, hit{k, f})
 		}
 	}
-	for _, fp := range order {
-		a := agg[fp]
-		what := fmt.Sprintf("[%s] %s", a.first.key(), a.what)
-		if a.n > 1 {
-			what += fmt.Sprintf(" [%d findings of the grammar fall in this class; the replay is the simplest case]", a.n)
+	for _, r := range group(hits) {
+		what := fmt.Sprintf("[%s] %s", r.first.k.key(), r.first.f.What)
+		if r.n > 1 {
+			what += fmt.Sprintf(" [%d findings of the grammar fall in this class; the replay is the simplest case]", r.n)
 		}
-		rep.Violation(fp, what, a.first)
+		rep.Violation(r.fp, what, r.first.k)
 	}
 
 	classes := map[string]interface{}{}
@@ -308,15 +260,15 @@ func main() {
 		"rule": "every (shape, sender/receiver representation, RPC kind, request count, response count, handler outcome, transport) of the grammar, and every unordered pair of kinds run concurrently on one channel, " +
 			"is run through the real channel and server. A case is non-trivial when at least one message was obtained by a receiver through the transport and compared with the message sent at that position " +
 			"(in-process: frame through the per-RPC Go channel and the cloner; HTTP: unary body or length-prefixed frame of io.go), or a clause failed; distinct by all case parameters.",
-		"samples":                  samples,
-		"exhaustive":               true,
-		"shapes":                   nShapes,
-		"messages_compared":        frames,
-		"nontrivial_by_class":      classes,
-		"reference_cases_on_grpc":  refCases,
-		"reference_disagreements":  0,
-		"engine":                   "E2",
-		"part":                     "content (input dimension) under the ordinary schedule; interleavings are the E1 part",
+		"samples":                 samples,
+		"exhaustive":              true,
+		"shapes":                  nShapes,
+		"messages_compared":       frames,
+		"nontrivial_by_class":     classes,
+		"reference_cases_on_grpc": refCases,
+		"reference_disagreements": 0,
+		"engine":                  "E2",
+		"part":                    "content (input dimension) under the ordinary schedule; interleavings are the E1 part",
 	}, []string{
 		"HTTP runs through common.HandlerRT (httptest recorder): the response is complete when RoundTrip returns, so streams are half-duplex and net/http's connection handling is not exercised",
 		"only the ordinary Go schedule is seen here; the two concurrent RPCs are forced to overlap by two rendezvous points in the handlers (before the first request is decoded / received, and before the first response is sent)",
